@@ -135,3 +135,39 @@ func composedPaths(sv types.ServiceConfig) map[string]string {
 	}
 	return out
 }
+
+// runNonPaths: sources that are not paths - mounts of the types npipe, cluster and image, named
+// volumes, service / container references - stay as written, in the main file and in an included one.
+func runNonPaths(s *core.Shard, offset int) {
+	if !s.Mine(offset) || !s.Begin("non-paths") {
+		return
+	}
+	svc := "    image: img\n    volumes:\n      - {type: npipe, source: '\\\\.\\pipe\\docker_engine', target: '\\\\.\\pipe\\docker_engine'}\n      - {type: cluster, source: 'group:mygroup', target: /c}\n      - {type: image, source: 'alpine:3.19', target: /i}\n      - {type: volume, source: data, target: /d}\n      - {type: tmpfs, target: /t}\n"
+	lc := &ld.Case{Files: map[string]string{
+		"proj/compose.yaml":     "include:\n  - sub/compose.yaml\nservices:\n  a:\n" + svc + "volumes:\n  data: {}\n",
+		"proj/sub/compose.yaml": "services:\n  b:\n" + svc,
+	}, ComposeFiles: []string{"proj/compose.yaml"}, WorkingDir: "proj"}
+	_, res := ld.Run(s.Scratch(), lc)
+	s.Eval(1)
+	rf := map[string]any{"case.json": map[string]any{"kind": "non-paths", "case": lc}}
+	if res.Panic != nil {
+		ld.PanicViolation(s, res.Panic, lc, map[string]string{"part": "non-paths"})
+		return
+	}
+	if res.Err != nil {
+		s.Inconclusive("non-paths: the document does not load: " + res.Err.Error())
+		return
+	}
+	want := map[string]string{"npipe": `\\.\pipe\docker_engine`, "cluster": "group:mygroup", "image": "alpine:3.19", "volume": "data", "tmpfs": ""}
+	for _, name := range []string{"a", "b"} {
+		for _, v := range res.Project.Services[name].Volumes {
+			s.Add("non_path_sources_checked", 1)
+			if w, ok := want[v.Type]; ok && v.Source != w {
+				s.Violation(map[string]string{"kind": "non-path-rewritten", "part": "non-paths", "attribute": "volumes.source", "type": v.Type},
+					fmt.Sprintf("the source of a mount of type %s (service %s) is %q after loading, it was written %q and is not a path", v.Type, name, v.Source, w), rf)
+			}
+		}
+	}
+	s.Cover("origins-composed", "non-path mount sources")
+	s.Nontrivial("non-paths")
+}
